@@ -1263,9 +1263,9 @@ MANIFEST = dict(
         "for full/chunked evaluation, path/file re-dispatch of the ARPA reader, and a taint rule for possibly-unsigned "
         "NumPy scalars that are decremented and sign-tested. Necessary conditions of 'same numbers after save/load', "
         "'all at once or in chunks', 'integer width selection'; the back-off recursion itself is not decided."
-        " By value: the context window of the kernel for scalar / one-element / per-element indices (51 rows), the ARPA reader on a three-order text in base 10 and e, the orders visited by the start-symbol re-keying."),
+        " By value: the context window of the kernel for scalar / one-element / per-element indices (51 rows), the ARPA reader on a three-order text in base 10 and e, the orders visited by the start-symbol re-keying. The caller's index tensor and history are unchanged by the window selection (in-place writes reach the interpreter's aliases), and _build_trie copies the caller's table under `not destructive` before any statement that writes into it (statement order of copy and first mutation)."),
     level_note="Trusted: python ast; NumPy 2 promotion rules. F14 (uint8 parent index wraps; the 7 always-failing "
                "baseline tests) was found by G21 and repaired by a fix: commit.",
-    technique="static analysis: polynomial normal forms of layout constants, path-based definite assignment, argument binding, numeric-type taint; typestate of the buffers while loading (no read of old contents before the copy, also through defaulted helper arguments); interpretation of the kernel's window selection over exact tensors and of parse_arpa_lm over a line stream (plain-data interpreter over the syntax tree; only re / math of the standard library are called); calc_full_log_probs_chunked interpreted with the one-step scorer as a recording leaf (strided views evaluated against the receiver's storage)",
+    technique="static analysis: polynomial normal forms of layout constants, path-based definite assignment, argument binding, numeric-type taint; typestate of the buffers while loading (no read of old contents before the copy, also through defaulted helper arguments); interpretation of the kernel's window selection over exact tensors and of parse_arpa_lm over a line stream (plain-data interpreter over the syntax tree; only re / math of the standard library are called); calc_full_log_probs_chunked interpreted with the one-step scorer as a recording leaf (strided views evaluated against the receiver's storage); copy-before-mutation order rule on the caller's table",
     design_ref="DESIGN.md section 4 C06",
 )
